@@ -58,6 +58,10 @@ def pipe2 {α β δ : Type} (D : Datapath α β δ) : Elem α β (P2State δ) wh
         dp := D.next s.dp t.data }
     else s
 
+/-- `PipelinedActor.busy`: some stage holds a valid token. -/
+def P1State.busy {δ : Type} (s : P1State δ) : Bool := s.v1
+def P2State.busy {δ : Type} (s : P2State δ) : Bool := s.v1 || s.v2
+
 /-- `pipe_ce` of either pipeline in a given cycle is `sink.ready`. -/
 def pipeCe {α β σ : Type} (e : Elem α β σ) (s : σ) (i : In α) : Bool := (e.out s i).ready
 
